@@ -250,6 +250,18 @@ pub fn c07(tier: &str) -> i32 {
     mg.limit_vols = vec![1, 3_000_000_000];
     mg.reload_modes = vec![0, 1, 2];
     plans.push(plan("large times (beyond 2^53), prices and volumes", mg, 3, if t { 4 } else { 3 }));
+    // one price, few orders, deep: queue order that differs from id order at the snapshot point
+    {
+        let mut rl = Profile::core("snapshot-deep-one-price", 1, 10);
+        rl.prices = vec![10];
+        rl.limit_vols = vec![2];
+        rl.market_vols = vec![1];
+        rl.modify = true;
+        rl.modify_vols = vec![3];
+        rl.reload_modes = vec![0];
+        rl.max_orders = 4;
+        plans.push(plan("one price, re-queuing modifies, reload: depth 7", rl, 3, if t { 8 } else { 7 }));
+    }
     // a snapshot file larger than 1 MiB (6 000 resting orders, both formats) through the file path
     {
         let mut q = snapshot_profile("snapshot-bulk");
